@@ -57,7 +57,10 @@ func runC09(c *Ctx) {
 	// ---- verify-sites --------------------------------------------------------
 	sites := map[*ssa.Function]int{}
 	for _, f := range w.Funcs {
-		if n := len(k.verifyInvokes(f)); n > 0 {
+		if k.verifyWrapOf(f) != nil {
+			continue // a verify wrapper: its invoke is attributed to the functions that call it
+		}
+		if n := len(k.verifySites(f)); n > 0 {
 			sites[origin(f)] += n
 		}
 	}
@@ -76,15 +79,15 @@ func runC09(c *Ctx) {
 		c09RestackGuard(c, k, sf, "verify-sites")
 	}
 	// fast path in EnableVerification
-	if vis := k.verifyInvokes(k.enable); len(vis) == 1 {
-		vi := vis[0]
-		pb := &predBuilder{name: k.namer(func(v ssa.Value) string {
+	if vis := k.verifySites(k.enable); len(vis) == 1 {
+		vi := vis[0].Call
+		pb := k.withSites(&predBuilder{name: k.namer(func(v ssa.Value) string {
 			if _, ok := isFieldLoad(v, k.fMonCtl); ok {
 				return "monCtl"
 			}
 			return ""
-		})}
-		g := pb.pathCond(k.enable.Blocks[0], vi.Block())
+		})}, vis)
+		g := k.siteGuard(pb, vis[0], k.enable.Blocks[0])
 		c.checkTable("verify-sites", relName(k.enable)+"#fastpath-guard", vi.Pos(), g,
 			[]string{"Params.DelayInitialVerification", "isnil(monCtl)", "isVerified"}, nil, "Delay && monCtl==nil && isVerified",
 			func(e env) bool {
@@ -111,17 +114,17 @@ func runC09(c *Ctx) {
 			c.check(okg, "flag-transitions", relName(m)+"#helper-call", ci.Pos(), "the enable helper is only called while skipVerify is true", "the enable helper is called without skipVerify being known true")
 		}
 		// helper result table
-		vis := k.verifyInvokes(helper)
+		vis := k.verifySites(helper)
 		if len(vis) != 1 {
 			c.bad("flag-transitions", relName(helper)+"#result", helper.Pos(), "the enable helper has %d Verify invokes, want 1", len(vis))
 		} else {
-			vi := vis[0]
-			pb := &predBuilder{name: k.namer(func(v ssa.Value) string {
-				if v == ssa.Value(vi) {
+			vi := vis[0].Call
+			pb := k.withSites(&predBuilder{name: k.namer(func(v ssa.Value) string {
+				if v == ssa.Value(vi) && vis[0].wrap == nil {
 					return "verifyErr"
 				}
 				return ""
-			})}
+			})}, vis)
 			var trueF formula = fConst{false}
 			okConst := true
 			for _, r := range returnsOf(helper) {
@@ -264,19 +267,18 @@ func runC09(c *Ctx) {
 // c04InitialVerifyGuardOnly: the guard table of Config's Verify under another rule.
 func c04InitialVerifyGuardOnly(c *Ctx, k *core, rule string) {
 	f := k.config
-	vis := k.verifyInvokes(f)
+	vis := k.verifySites(f)
 	if len(vis) != 1 {
 		c.bad(rule, relName(f)+"#guard", f.Pos(), "Config has %d Verify invokes, want 1", len(vis))
 		return
 	}
-	vi := vis[0]
-	ta := k.verifiedAssert(vi.Call.Value)
-	if ta == nil {
+	vi := vis[0].Call
+	if vis[0].Recv == nil {
 		c.undecided(rule, relName(f)+"#guard", vi.Pos(), "Verify receiver is not a comma-ok assertion")
 		return
 	}
-	pb := &predBuilder{name: k.namer(nil)}
-	g := pb.pathCond(ta.Block(), vi.Block())
+	pb := k.withSites(&predBuilder{name: k.namer(nil)}, vis)
+	g := k.siteGuard(pb, vis[0], c04GuardFrom(pb, vis[0]))
 	c.checkTable(rule, relName(f)+"#guard", vi.Pos(), g,
 		[]string{"isVerified", "Params.SkipInitialVerification", "Params.DelayInitialVerification"}, nil, "isVerified && !Skip && !Delay",
 		func(e env) bool {
@@ -285,26 +287,25 @@ func c04InitialVerifyGuardOnly(c *Ctx, k *core, rule string) {
 }
 
 func c09RestackGuard(c *Ctx, k *core, f *ssa.Function, rule string) {
-	vis := k.verifyInvokes(f)
+	vis := k.verifySites(f)
 	if len(vis) != 1 {
 		c.bad(rule, relName(f)+"#guard", f.Pos(), "%d Verify invokes, want 1", len(vis))
 		return
 	}
-	vi := vis[0]
-	ta := k.verifiedAssert(vi.Call.Value)
-	if ta == nil {
+	vi := vis[0].Call
+	if vis[0].Recv == nil {
 		c.undecided(rule, relName(f)+"#guard", vi.Pos(), "Verify receiver is not a comma-ok assertion")
 		return
 	}
-	pb := &predBuilder{name: k.namer(func(v ssa.Value) string {
+	pb := k.withSites(&predBuilder{name: k.namer(func(v ssa.Value) string {
 		if p, ok := v.(*ssa.Parameter); ok && p.Parent() == f {
 			if b, ok := p.Type().Underlying().(*types.Basic); ok && b.Kind() == types.Bool {
 				return "skipVerify"
 			}
 		}
 		return ""
-	})}
-	g := pb.pathCond(ta.Block(), vi.Block())
+	})}, vis)
+	g := k.siteGuard(pb, vis[0], c04GuardFrom(pb, vis[0]))
 	c.checkTable(rule, relName(f)+"#guard", vi.Pos(), g, []string{"isVerified", "skipVerify"}, nil, "isVerified && !skipVerify",
 		func(e env) bool { return e.B["isVerified"] && !e.B["skipVerify"] })
 }
@@ -334,7 +335,7 @@ func c09EnableResult(c *Ctx, k *core, helper *ssa.Function) {
 		if f == nil {
 			continue
 		}
-		vis := k.verifyInvokes(f)
+		vis := k.verifySites(f)
 		for _, i := range allInstrs(f) {
 			al, ok := i.(*ssa.Alloc)
 			if !ok || litTypeName(al) != ".verifyEnableResp" {
@@ -348,15 +349,14 @@ func c09EnableResult(c *Ctx, k *core, helper *ssa.Function) {
 				okp := cv != nil && cv == ct
 				// and if this function verifies, it verified that very config
 				if okp && len(vis) == 1 {
-					ta := k.verifiedAssert(vis[0].Call.Value)
-					okp = ta != nil && derivesAll(ta.X, func(x ssa.Value) bool { return k.vvCall(x, 0) == cv }, nil)
+					okp = vis[0].Recv != nil && recvIs(vis[0].Recv, func(x ssa.Value) bool { return k.vvCall(x, 0) == cv })
 					// success reply only where Verify returned nil or the config is not verifiable
-					pb := &predBuilder{name: k.namer(func(x ssa.Value) string {
-						if x == ssa.Value(vis[0]) {
+					pb := k.withSites(&predBuilder{name: k.namer(func(x ssa.Value) string {
+						if x == ssa.Value(vis[0].Call) && vis[0].wrap == nil {
 							return "verifyErr"
 						}
 						return ""
-					})}
+					})}, vis)
 					g := pb.pathCond(f.Blocks[0], al.Block())
 					r := compareTable(g, []string{"isVerified", "isnil(verifyErr)"}, selAtomsOf(g), func(en env) bool { return !en.B["isVerified"] || en.B["isnil(verifyErr)"] })
 					if len(r.Unknown) > 0 || r.Mismatch != "" {
@@ -373,7 +373,7 @@ func c09EnableResult(c *Ctx, k *core, helper *ssa.Function) {
 	}
 	// (2) returns of EnableVerification
 	f := k.enable
-	vis := k.verifyInvokes(f)
+	vis := k.verifySites(f)
 	// the reply received from the monitor
 	var reply ssa.Value
 	for _, i := range allInstrs(f) {
@@ -417,9 +417,8 @@ func c09EnableResult(c *Ctx, k *core, helper *ssa.Function) {
 		case isNilConst(rv[2]):
 			cv, ct := k.vvCall(rv[0], 0), k.vvCall(rv[1], 1)
 			okp := cv != nil && cv == ct
-			if okp && len(vis) == 1 && (vis[0].Block().Dominates(r.Block()) || k.verifiedAssert(vis[0].Call.Value) != nil && k.verifiedAssert(vis[0].Call.Value).Block().Dominates(r.Block())) {
-				ta := k.verifiedAssert(vis[0].Call.Value)
-				okp = ta != nil && derivesAll(ta.X, func(x ssa.Value) bool { return k.vvCall(x, 0) == cv }, nil)
+			if okp && len(vis) == 1 && (vis[0].Call.Block().Dominates(r.Block()) || vis[0].from().Dominates(r.Block())) {
+				okp = vis[0].Recv != nil && recvIs(vis[0].Recv, func(x ssa.Value) bool { return k.vvCall(x, 0) == cv })
 			}
 			c.check(okp, "enable-result", name+"-success", r.Pos(),
 				"success return carries the config and serial of one ViewVersion call (the verified one)", "a success return does not carry the verified (config, serial) pair (e.g. nil config)")
